@@ -15,6 +15,14 @@ CHECKS = {
         note='Trusts vf/ref/script.py (validated by vf.setup on the real-chain pairs and by bulk agreement), OpenSSL hashes, and that TAPSCRIPT sessions '
              'carry the execdata configure_tx_txin always sets. The known finding C01-opsuccess is excluded from the BIP342 layer only.',
         design='5/C01'),
+    'C07': dict(
+        technique='grammar-based property-based testing (Hypothesis) against an executable token->bytes model, plus exhaustive enumeration of all 1- and 2-byte hex literals',
+        text='Token sequences drawn from the documented btcc grammar (names with/without OP_, OP_xNN, int64 decimals, hex literals of every length class, brackets to depth 8 with '
+             'whitespace/comment variants) are assembled through the same code path as btcc (harness) and by the real btcc binary (sample) and compared byte for byte with a model '
+             'derived from the statement; the model output is itself checked to decode to the token sequence with minimal pushes. All 65,792 one- and two-byte literals are enumerated in three contexts.',
+        note='Brackets are passed as one argv element (the documented quoted form); comments containing brackets and non-canonical decimals (-0, 007) are outside the grammar and not asserted. '
+             'Known finding C07-xff (sentinel collision) is excluded by construction; one genuine defect was repaired by a fix: commit.',
+        design='5/C07'),
     'C10': dict(
         technique='constructive boundary-value property-based testing (Hypothesis) with a differential oracle and a directional oracle taken from the statement',
         text='For every limit and every way of reaching it the generator constructs scripts at L-1, L and L+1 for BASE / WITNESS_V0 / TAPSCRIPT; the debugger must '
